@@ -258,7 +258,7 @@ def run(chk):
         return
     seed = chk.seed
     texts = 8
-    nfonts = 2400 if thorough else 450
+    nfonts = 15000 if thorough else 1200
     violations = 0
     # ---- corpus first
     cfonts, cfails = corpus_cases(binp)
@@ -327,7 +327,7 @@ def run(chk):
         r = df.reqs[0]
         payload = replay_payload(df, r, code, {"generator": {"seed": seed, "texts": texts, "font": f.k, "request": ri, "shrink_ops": ops},
                                                 "note": "model (OpenType substitution model, Model/Gsub.v) and rustybuzz::shape disagree on this font and request"})
-        chk.violation("model-vs-implementation", payload)
+        chk.violation("implementation-panic" if code in (6, 7) else "model-vs-implementation", payload)
         violations += 1
     chk.note("correspondence_disagreements", len(dis))
     # ---- independent oracles
@@ -352,6 +352,14 @@ def run(chk):
         chk.violation("tie-or-proof-broken", {"broken": broken,
                       "note": "theorems of Props/C06.v or the correspondence machinery no longer check; no failing font/text was found"},
                       no_input=True)
+    chk.note("theorem_scope", {
+        "proved_for_all_inputs": ["C06_single", "C06_alternate (not the rand feature)", "C06_ligature_cluster_min (ligate_input, levels 0/1)",
+                                  "C06_stage_order / _is_sort_dedup / _indices / _masks_ored", "C06_no_nested_is_identity", "C06_nesting_bound"],
+        "partial": {"C06_multiple_partial": "sequences of length >= 1 (deletion by an empty sequence only by correspondence + oracle)",
+                    "C06_total_partial": "contextual/chained lookups without nested records (single/alternate/multiple(no deletion) return Ok by their "
+                                         "theorems); ligature, deletion and nested lookups only by correspondence (an OutOfFuel outcome counts as model error)"},
+        "not_proved": ["C06_ligature (greedy first match as a declarative statement): only the cluster-min part; covered by oracle (ii) and correspondence",
+                       "C06_reverse_chain declarative statement: correspondence only"]})
     chk.cov["trusted_base"] = C.DEFAULT_TRUSTED_BASE + [
         "harness fontgen (sfnt writer) and its Coq printer: the same FontSpec reaches ttf-parser as bytes and the model as a term",
         "ttf-parser (font parsing) is exercised, not modelled"]
